@@ -2,6 +2,7 @@
 # seed_collect.sh <round> <Cxx>...: take a sub-agent's delivery from /tmp/seed<round>_<Cxx>, file it under seeded/, drop its worktree, try it
 cd /verif
 R=$1; shift
+# (round number: deliveries are in /tmp/seed<round>_<Cxx>, worktrees in /tmp/wt<round>_<Cxx>)
 for P in "$@"; do
   D=/tmp/seed${R}_$P
   [ -f $D/patch.diff ] || { echo "$P: no delivery"; continue; }
